@@ -289,7 +289,7 @@ class Laws(Suite):
     case_ty = "case"
     obs_ty = "obs"
     corr = "Identifier.__eq__/__hash__/__lt__/__gt__, Literal.__eq__/__hash__/__lt__/__gt__/eq, _ORDERING"
-    quick_n = 700
+    quick_n = 600
     thorough_n = 12000
     timeout_s = 20.0
 
@@ -554,7 +554,7 @@ class Text(Suite):
     spec = "tspec_ok"
     corr = ("URIRef.n3, BNode.n3, Variable.n3, Literal.n3/_literal_n3/_quote_encode, util.from_n3, "
             "__reduce__ of the four classes + constructors")
-    quick_n = 900
+    quick_n = 800
     thorough_n = 12000
     timeout_s = 20.0
 
@@ -814,27 +814,37 @@ SUITES = [Laws(), Text(), Pickler()]
 
 TRUSTED = [
     "Coq 8.16.1 kernel and vm_compute",
-    "harness/c07.py: structural reading of terms (skey/tj), rebuilding of terms (mk), and the conformance flags "
-    "(sorted/set/dict/operator consistency, copy/deepcopy/pickle protocol agreement, Turtle and SPARQL read-back) "
-    "which are computed in Python and only required to be true by the specification checker",
-    "CPython 3.12: pickle, copy, sorted, str comparison by code point, the unicode-escape and raw-unicode-escape codecs "
-    "(the model of the codecs is compared with CPython on every text case)",
+    "harness/c07.py: structural reading of terms (skey/tj), rebuilding of terms (mk), and the five conformance flags of the laws "
+    "suite (sorted() under shuffling; per-datatype sorted() over permutations; set/dict collapse; operator consistency on "
+    "non-literal pairs; a tie of two literals of one datatype is Literal.eq) and the three of the text suite (copy/deepcopy/pickle "
+    "protocol agreement, Turtle and SPARQL read-back), which are computed in Python and only required to be true by the checker",
+    "CPython 3.12: pickle, copy, str comparison by code point, the unicode-escape and raw-unicode-escape codecs (the model of the "
+    "codecs is compared with CPython on every text case), and list.sort: assumed ONLY to be a correct stable comparison sort that "
+    "calls nothing but __lt__ - by C07_stable_sort_unique its result is then unique, and the model's insertion sort is compared "
+    "with sorted() on every laws case",
     "harness/reflect_term.py renders _ORDERING, _invalid_uri_chars, the numeric/INF-NaN datatype lists and the keys of XSDToPython faithfully",
 ]
 ASSUMPTIONS = [
-    "PYTHONHASHSEED=0; the hash of a str is supplied to the model as an oracle table, the theorems only use that it is a function",
+    "PYTHONHASHSEED=0; the hash of a str is supplied to the model as an oracle table derived when the Coq text is written; the "
+    "theorems only use that it is a function; the checker compares the REAL hash() of every term of a case and demands "
+    "a == b -> hash(a) == hash(b) on every pair",
     "the lexical form Literal(lex, datatype=dt) builds for a recognised datatype other than the [+-]?[0-9]+ forms of xsd:integer "
     "is supplied as an oracle (normalisation is the subject of C09); the model decides only where it is used; 'the same term' for "
     "text read back by from_n3 / Turtle is the literal that default constructor builds (the term itself unless built with normalize=False)",
     "rdflib.DAWG_LITERAL_COLLATION is False and rdflib.NORMALIZE_LITERALS is True (defaults; reflected into Gen/Tables_term.v)",
-    "ordering of two literals is modelled for plain/xsd:string/language-tagged and [+-]?[0-9]+ xsd:integer literals; for all other "
-    "pairs of literals only 'the comparison does not raise' is checked",
+    "ordering (<, >, <=, >=) of two literals is modelled for plain/xsd:string/language-tagged and [+-]?[0-9]+ xsd:integer literals; "
+    "for all other pairs of literals (dates, times, durations, decimals, doubles, NaN, ill-typed, custom datatypes) the order is "
+    "checked by laws only: < and > never raise, inside one datatype < is irreflexive/asymmetric/transitive, sorted() is "
+    "reproducible, ties are Literal.eq",
     "variables are named by non-empty strings that do not start with '?'; datatype IRIs are non-empty and free of the characters "
-    "URIRef.n3 refuses; language tags are what the constructor accepts",
+    "URIRef.n3 refuses; language tags are what the constructor accepts; Genid/RDFLibGenid/Graph objects as terms are not in scope",
     "no namespace manager is passed to n3() (no prefix shortening)",
 ]
-RULE = ("laws: 2-6 terms (sweep: 5-10) drawn from a per-run pool of about 220 structurally distinct terms (all four kinds; literals over "
-        "every key of XSDToPython with valid, invalid and non-normalised lexical forms, NaN/INF, naive and aware date-times, tags "
-        "differing in case, strings over the escape alphabet), biased towards terms sharing a string, a datatype or a tag; every "
-        "pair and triple of a case is checked. text: one term of the pool or a fresh string over the alphabet. "
-        "Distinct by full case content; every case is non-trivial (laws: at least one pair).")
+RULE = ("laws: 2-6 terms (sweep: 5-10) drawn from a per-run pool of about 270 structurally distinct terms (all four kinds; literals over "
+        "every key of XSDToPython with valid, invalid and non-normalised lexical forms, NaN/INF, tags differing only in case incl. "
+        "en/EN/En, fr/FR/Fr, clusters of xsd:time/dateTime/date/duration/yearMonthDuration/dayTimeDuration with naive and aware values, "
+        "several offsets and one value spelled differently, strings over the escape alphabet); 30 % of the cases are 3-5 literals of "
+        "one datatype, the others are biased towards terms sharing a string, a datatype or a tag; every pair and triple of a case is "
+        "checked, and sorted() of the case. text: one term of the pool or a fresh string over the alphabet. pickler: 2-7 terms of "
+        "different kinds over one text through one NodePickler. Distinct by full case content; laws cases are non-trivial with at "
+        "least one pair, pickler cases when two kinds share a text.")
